@@ -63,6 +63,9 @@ VARIABLES pw, rd, shut, wfull, fills,         \* kernel / peer
 vars == <<pw, rd, shut, wfull, fills, slot, opwk, optok, creq, seen, fst, fkind, ftok, tokc, woken, repl,
           backed, err, dev, needPoll>>
 
+K0 == CHOOSE k \in Kinds : TRUE
+T0 == CHOOSE t \in TokModes : TRUE
+
 Ready(d) == IF d = "r" THEN (rd < pw \/ shut) ELSE ~wfull
 
 TypeOK ==
@@ -79,11 +82,18 @@ Init ==
   /\ slot = [d \in Dirs |-> "none"] /\ opwk = [d \in Dirs |-> NoW] /\ optok = [d \in Dirs |-> NoW]
   /\ creq = [d \in Dirs |-> FALSE] /\ seen = [d \in Dirs |-> FALSE]
   /\ fst = [w \in W |-> "none"]
-  /\ fkind = [w \in W |-> CHOOSE k \in Kinds : TRUE] /\ ftok = [w \in W |-> CHOOSE t \in TokModes : TRUE]
+  /\ fkind = [w \in W |-> K0] /\ ftok = [w \in W |-> T0]
   /\ tokc = [w \in W |-> FALSE] /\ woken = [w \in W |-> FALSE] /\ repl = {}
   /\ backed = [d \in Dirs |-> Ready(d)] /\ err = {} /\ dev = {} /\ needPoll = FALSE
 
 Guard == ~(Eager /\ needPoll)
+
+\* state-space normalisation: kind and token of a slot without future are forgotten once no operation is
+\* registered with the token any more (to be used after fst' and optok' are determined)
+NormTok ==
+  /\ fkind' = [x \in W |-> IF fst'[x] = "none" THEN K0 ELSE fkind[x]]
+  /\ ftok' = [x \in W |-> IF fst'[x] = "none" /\ (\A d \in Dirs : optok'[d] # x) THEN T0 ELSE ftok[x]]
+  /\ tokc' = [x \in W |-> IF fst'[x] = "none" /\ (\A d \in Dirs : optok'[d] # x) THEN FALSE ELSE tokc[x]]
 
 -----------------------------------------------------------------------------
 (* What one call of the waiter's Future::poll returns, as a function of the state before the call.
@@ -140,7 +150,8 @@ PollW(w) ==
      /\ err' = err \cup (IF res = "ok" /\ ~backed[d] THEN {"thin_air"} ELSE {})
                    \cup (IF foreign /\ Strict THEN {"foreign_cancel"} ELSE {})
      /\ needPoll' = (needPoll \/ (Eager /\ arm /\ newcreq))
-  /\ UNCHANGED <<pw, shut, wfull, fills, fkind, ftok, tokc>>
+  /\ NormTok
+  /\ UNCHANGED <<pw, shut, wfull, fills>>
 
 \* DropW: the future is dropped. poll_fn holds no state: the Submit stays in the slot, the waker stays in the op
 \* (a stale waker wakes nobody we track).
@@ -150,12 +161,14 @@ DropW(w) ==
   /\ opwk' = [d \in Dirs |-> IF opwk[d] = w THEN NoW ELSE opwk[d]]
   /\ woken' = [woken EXCEPT ![w] = FALSE]
   /\ repl' = repl \ {w}
-  /\ UNCHANGED <<pw, rd, shut, wfull, fills, slot, optok, creq, seen, fkind, ftok, tokc, backed, err, dev, needPoll>>
+  /\ UNCHANGED <<pw, rd, shut, wfull, fills, slot, optok, creq, seen, backed, err, dev, needPoll>>
+  /\ NormTok
 
 \* CancelToken::cancel of the waiter's token (the future may already be gone): notify_all wakes a fail-fast
 \* listener, every operation registered with the token gets Proactor::cancel.
 CancelTok(w) ==
   /\ ftok[w] # "no" /\ ~tokc[w] /\ Guard
+  /\ (fst[w] # "none" \/ \E d \in Dirs : optok[d] = w)
   /\ LET hit(d) == optok[d] = w /\ slot[d] = "armed" IN
      /\ Eager => \A d \in Dirs : hit(d) => ~Ready(d)
      /\ tokc' = [tokc EXCEPT ![w] = TRUE]
@@ -209,7 +222,8 @@ DrvComplete(d) ==
   /\ optok' = [optok EXCEPT ![d] = NoW]
   /\ woken' = [w \in W |-> woken[w] \/ (opwk[d] = w /\ Mut # "nowake")]
   /\ opwk' = [opwk EXCEPT ![d] = NoW]
-  /\ UNCHANGED <<pw, rd, shut, wfull, fills, fst, fkind, ftok, tokc, repl, backed, err, dev, needPoll>>
+  /\ UNCHANGED <<pw, rd, shut, wfull, fills, fst, repl, backed, err, dev, needPoll>>
+  /\ NormTok
 
 \* generator variant: one driver poll processes everything that is due, deterministically
 DrvPoll ==
@@ -224,7 +238,8 @@ DrvPoll ==
      /\ woken' = [w \in W |-> woken[w] \/ (\E d \in Dirs : fin(d) /\ opwk[d] = w /\ Mut # "nowake")]
      /\ opwk' = [d \in Dirs |-> IF fin(d) THEN NoW ELSE opwk[d]]
   /\ needPoll' = FALSE
-  /\ UNCHANGED <<pw, rd, shut, wfull, fills, fst, fkind, ftok, tokc, repl, backed, err, dev>>
+  /\ UNCHANGED <<pw, rd, shut, wfull, fills, fst, repl, backed, err, dev>>
+  /\ NormTok
 
 Next ==
   \/ \E w \in W, k \in Kinds, t \in TokModes : Start(w, k, t)
